@@ -34,8 +34,9 @@ type Step struct {
 	Tol      float64   `json:"tol,omitempty"`
 	Dashes   []float64 `json:"dashes,omitempty"`
 	Offset   float64   `json:"offset,omitempty"`
-	AsPaths  bool      `json:"as_paths,omitempty"` // use the Paths form of the boolean operation
-	ChainA   bool      `json:"chain_a,omitempty"`  // operand A is the path returned by this task's previous call (if that returned a path)
+	AsPaths  bool      `json:"as_paths,omitempty"`  // use the Paths form of the boolean operation
+	ChainA   bool      `json:"chain_a,omitempty"`   // operand A is the path returned by this task's previous call (if that returned a path)
+	EmptySub int       `json:"empty_sub,omitempty"` // Paths form only: an empty subpath in the list (1 appended to the subject, 2 appended to the clip, 3 in front of the subject)
 	// text / fonts / rendering
 	Font    int      `json:"font,omitempty"` // index into the run's font table
 	Text    string   `json:"text,omitempty"`
